@@ -275,4 +275,59 @@ theorem fold_filter (f : String → Grid Tok → Grid Tok) (l0 : Laser) (es : Li
       simp [hnd'.1]
     · simp [hne]
 
+/-! ## where files go -/
+
+theorem save_placed (l : Laser) (p : Path) (fs : List File) (h : save l p = .ok fs) :
+    ∀ f ∈ fs, placedAt f p := by
+  unfold save at h
+  split at h
+  · cases h
+    intro f hf
+    obtain ⟨n, _, rfl⟩ := List.mem_map.mp hf
+    exact Or.inr ⟨n, rfl⟩
+  · split at h
+    · cases h
+      intro f hf
+      simp only [List.mem_singleton] at hf
+      subst hf
+      exact Or.inl rfl
+    · split at h
+      · cases h
+        intro f hf
+        simp only [List.mem_singleton] at hf
+        subst hf
+        exact Or.inl rfl
+      · cases h
+
+theorem loop_placed (cmd : Cmd) (outs : List Path) (work : List (Nat × Laser × Path)) (acc : List File)
+    (hw : ∀ x ∈ work, x.2.2 ∈ outs) (hacc : ∀ f ∈ acc, ∃ o ∈ outs, placedAt f o) :
+    ∀ f ∈ (loop cmd work acc).files, ∃ o ∈ outs, placedAt f o := by
+  induction work generalizing acc with
+  | nil => simpa [loop] using hacc
+  | cons x rest ih =>
+    obtain ⟨k, l, out⟩ := x
+    have hout : out ∈ outs := hw (k, l, out) (by simp)
+    have hrest : ∀ x ∈ rest, x.2.2 ∈ outs := fun x hx => hw x (List.mem_cons_of_mem _ hx)
+    have happ : ∀ (l' : Laser) (fs : List File), save l' out = .ok fs →
+        ∀ f ∈ acc ++ fs, ∃ o ∈ outs, placedAt f o := by
+      intro l' fs hs f hf
+      rcases List.mem_append.mp hf with h | h
+      · exact hacc f h
+      · exact ⟨out, hout, save_placed l' out fs hs f h⟩
+    cases cmd with
+    | convert cfg els =>
+      simp only [loop]
+      cases hc : convertStep cfg els l with
+      | none => exact ih acc hrest hacc
+      | some l' =>
+        cases hs : save l' out with
+        | ok fs => simpa [hs] using ih (acc ++ fs) hrest (happ l' fs hs)
+        | error e => simpa [hs] using hacc
+    | filter f sel =>
+      simp only [loop]
+      cases hs : save (filterStep (f k) sel l) out with
+      | ok fs => exact ih (acc ++ fs) hrest (happ _ fs hs)
+      | error e => exact hacc
+    | stack o pad => simpa [loop] using hacc
+
 end Pew.Cli
